@@ -141,7 +141,7 @@ def check_C12(c):
             if ops != ['dereify_edges', 'reify_edges']:
                 # collapse, then reify again: the markers a dereification leaves behind must not confuse the layout diagnostics
                 jobs.append(('tr_program', dict(node=jn, ops=['dereify_edges', 'reify_edges'], model=model)))
-    traces = pmake(jobs)
+    traces = pmake(jobs, optimized_share=0.02)
     c.judge('J_Transform', traces, 'programs', nontrivial=lambda t: any(s['ok'] and s['g']['tr'] != t['g0']['tr'] for s in t['steps']))
     c.rule = ('random well-formed trees over the AMR / MiniAMR role and concept inventories (reifiable roles on edges, attributes, '
               'inverted edges, re-entrancies, aligned roles and targets, pre-existing variables _ and _2) decoded into start graphs '
@@ -169,7 +169,7 @@ def check_C11(c):
             st = None if c.rng.random() < 0.7 else {'strip': True}
             jobs.append(('tr_dereify', dict(node=jn, model=model, start=st)))
             jobs.append(('tr_inverse', dict(node=jn, model=model, start=st)))     # (judged where nothing in it is collapsible)
-    traces = pmake(jobs)
+    traces = pmake(jobs, optimized_share=0.02)
     c.judge('J_Transform', traces, 'inverse', nontrivial=lambda t: t['kind'] == 'inverse' and t['g1']['tr'] != t['g']['tr'] or
             t['kind'] == 'dereify' and t['out']['tr'] != t['g']['tr'])
     c.rule = ('random well-formed trees over the AMR / MiniAMR inventories (reifiable roles on edges, attributes, inverted edges, '
